@@ -6,7 +6,7 @@ From Coq Require Import List ZArith Bool Permutation.
 From GZ Require Import Lib.RollingWindow Lib.RollingWindowSpec Lib.RollingWindowProofs.
 From GZ Require Import C16.Model C16.ProofsMap C16.ProofsSeq C16.ProofsCache C16.ProofsCacheLru.
 From GZ Require Import C16.ModelW C16.ProofsW C16.ProofsWClamp.
-From GZ Require Import C16.Lin C16.ProofsLin C16.Check C16.ProofsExtra.
+From GZ Require Import C16.Lin C16.ProofsLin C16.Check C16.ProofsExtra C16.ProofsRefW.
 Import ListNotations.
 Open Scope Z_scope.
 
@@ -106,6 +106,18 @@ Theorem safemap_stopped_range_shows_map_entries : forall cfg ops n,
   NoDup (map fst vis) /\ forallb (in_amap a) vis = true /\ length vis = Nat.min n (length a).
 Proof. exact range_prefix_allowed_proof. Qed.
 Print Assumptions safemap_stopped_range_shows_map_entries.
+
+(* Check.v runs a SafeMap history with its bulk operations in one pass (mcheck); a case it
+   accepts shows exactly the visible observations (Range sorted) of the plain map [map_run] of
+   safemap_refines_map on the expanded history - prop_ok - resp. of the transcribed model
+   [sm_run] - agrees.  So the decidable check is the theorem's reference, not a third thing. *)
+Theorem safemap_check_runs_the_reference : forall ct md ops seen,
+  (prop_ok (KSafeMap ct md ops seen) = true ->
+   visible true (map_run [] (expand ops)) = visible true seen) /\
+  (agrees (KSafeMap ct md ops seen) = true ->
+   visible true (sm_run (mkSMC ct md) sm_new (expand ops)) = visible true seen).
+Proof. exact safemap_check_runs_the_reference_proof. Qed.
+Print Assumptions safemap_check_runs_the_reference.
 
 (* non-vacuity: draining state (thresholds 2, 2): key 1 has moved to the new generation *)
 Example ex_safemap_draining :
@@ -367,6 +379,29 @@ Example ex_cachew_run :
   cw_run (cw_new 2 300 1000 true) (ex_w_pre ++ [XSet 1 11 3500] ++ ex_w_a ++ [XTick; XGet 1; XGet 2]) =
     [OUnit; OUnit; OUnit; OUnit; OOpt (Some 11); OUnit; OUnit; OUnit; OOpt (Some 11); OUnit; OOpt None; OOpt (Some 20)].
 Proof. vm_compute. reflexivity. Qed.
+
+(* The composed model (cache + C12 wheel, rewrites through SetTimer as the code does since
+   9733d1f) answers every history of positive expiries exactly as the reference that
+   Check.prop_ok holds the implementation to: the oldest-stamp LRU cache of cache_evicts_lru
+   plus, per key, the number of ticks it has left - floor(max d interval / interval) from its
+   latest Set or loading Take, one less at every tick, removed at 0, on Del and on eviction.
+   Same Get / Take results, same key sets (XHeld), same sizes (XSize), at every step: expiry,
+   LRU order and limit together, for all limits, wheel sizes, intervals and histories. *)
+Theorem cachew_refines_stamp_reference : forall limit n i ops, 1 <= n -> 1 <= i ->
+  forallb xx_in_scope ops = true ->
+  cwx_run (cw_new limit n i false) ops = refwx_run i (mkRefW (s_new limit) []) ops.
+Proof. exact cachew_refines_stamp_reference_proof. Qed.
+Print Assumptions cachew_refines_stamp_reference.
+
+(* non-vacuity: limit 1; key 2 evicts key 1 (whose timer goes with it), lives 2 ticks, a rewrite
+   with a sub-interval expiry leaves it one more tick *)
+Example ex_refw :
+  let ops := [XX (XSet 1 10 3500); XX (XSet 2 20 2500); XHeld; XX XTick; XX (XSet 2 21 500); XX (XGet 2);
+              XX XTick; XHeld; XSize] in
+  forallb xx_in_scope ops = true /\
+  refwx_run 1000 (mkRefW (s_new 1) []) ops =
+    [OUnit; OUnit; OList [2]; OUnit; OUnit; OOpt (Some 21); OUnit; OList []; ONum 0].
+Proof. vm_compute. split; reflexivity. Qed.
 
 (* ------------------------------------------------------------------ *)
 (* Concurrent use (Lin.v).  The theorems above are about sequences of operations; the
